@@ -424,6 +424,15 @@ impl PageLockManager {
     pub fn stats(&self) -> &LockStats {
         &self.stats
     }
+
+    /// Verification hook: number of entries currently held in the page and table lock maps.
+    #[cfg(kahflane_turdb_verif)]
+    pub fn debug_entry_counts(&self) -> (usize, usize) {
+        (
+            self.page_shards.iter().map(|s| s.locks.lock().len()).sum(),
+            self.table_shards.iter().map(|s| s.locks.read().len()).sum(),
+        )
+    }
 }
 
 #[cfg(test)]
